@@ -3,6 +3,7 @@ CONSTANTS
   Times = {0}
   Prices = {1}
   Qtys = {1}
+  NegQtys = {}
   BalInit = {0}
   FeePcts = {0}
   Lats = {0}
